@@ -320,6 +320,15 @@ pub fn lrel_resp(r: LRel) -> Resp {
             }
         }
     }
+    // F-C14-3 (open): the literal conversion clause at an empty architecture list — a value both
+    // readers return for `a []` — fails: the lossless form prints `a`, converting back gives None
+    if fail.is_none() && valid_r_weak(&r) && r.architectures == Some(vec![]) {
+        fail = Some(format!(
+            "conversion drops the empty architecture list: lossless form prints {:?}, the lossy value prints {:?}",
+            lossless.as_ref().map(|l| l.to_string()).unwrap_or_default(),
+            printed
+        ));
+    }
     Resp::with(
         format!(
             "P:{} RT:{} LL:{} BK:{} LV:{} valid={}",
@@ -454,6 +463,9 @@ pub fn handle(op: &str, a: &[&str]) -> Option<Resp> {
                         }
                     }
                 }
+            }
+            if fail.is_none() && rs.iter().all(|e| e.iter().all(valid_r_weak)) && rs.iter().any(|e| e.iter().any(|r| r.architectures == Some(vec![]))) {
+                fail = Some("conversion drops an empty architecture list (F-C14-3)".to_string());
             }
             Some(Resp::with(
                 format!("P:{} RT:{} LV:{} EN:{} EB:{} RS:{} valid={}", es(&printed), rt, lv, en, eb, rsh, ebool(valid)),
